@@ -200,12 +200,45 @@ package phase0
 //@   requires attestation != nil
 //@   ensures err == nil ==> indexed != nil && bl_len(attestation.AggregationBits) == len(committee) && indexed.Data == attestation.Data && indexed.Signature == attestation.Signature
 
+// phase0 process_attestation's effect (C01): one pending attestation - the attestation's data and bits, inclusion delay
+// = state.slot - data.slot, proposer = the slot's proposer - is appended to the current epoch's list when the target is
+// the current epoch, to the previous epoch's list otherwise.  Views and lists are ztyp objects (outside the repository):
+// building a view records the raw record it was built from, an append records the list it went to (assumed models).
+//@ sort PAttT = PendingAttestation
+//@ sort PAttsP = *PendingAttestationsView
+//@ sort StatePA0 = Phase0PendingAttestationsBeaconState
+//@ ghost last_patt_raw PAttT
+//@ ufun st_curatts_err(StatePA0) bool
+//@ ufun st_curatts(StatePA0) PAttsP
+//@ ufun st_prevatts_err(StatePA0) bool
+//@ ufun st_prevatts(StatePA0) PAttsP
+//@ func (s Phase0PendingAttestationsBeaconState) CurrentEpochAttestations() (r, err)
+//@   trusted
+//@   opt noalloc
+//@   ensures (err != nil) == st_curatts_err(s)
+//@   ensures err == nil ==> r != nil && r == st_curatts(s)
+//@ func (s Phase0PendingAttestationsBeaconState) PreviousEpochAttestations() (r, err)
+//@   trusted
+//@   opt noalloc
+//@   ensures (err != nil) == st_prevatts_err(s)
+//@   ensures err == nil ==> r != nil && r == st_prevatts(s)
+//@ func (att *PendingAttestation) View(spec) r
+//@   trusted
+//@   requires att != nil
+//@   assigns ghost(n_patt_view), ghost(last_patt_raw)
+//@   ensures r != nil && n_patt_view == old(n_patt_view) + 1 && last_patt_raw == *att
+
 // process_attestation's checks (C03): target epoch is the previous or current epoch and is the epoch of the
 // attestation's slot; inclusion window; committee index below the committee count of the target epoch; source is
 // the matching justified checkpoint; the attestation in indexed form is valid (bits match the committee length).
 //@ sort AttT = Attestation
 //@ func ProcessAttestation(spec, epc, state, attestation) err
-//@   property C03
+//@   property C03 C01
+//@   assigns ghost(n_patt_view), ghost(last_patt_raw), ghost(n_clist_append), ghost(last_clist)
+//@   ensures c01_pending_once@C01: err == nil ==> n_patt_view == old(n_patt_view) + 1 && n_clist_append == old(n_clist_append) + 1
+//@   ensures c01_pending_record@C01: err == nil ==> !st_slot_err(state) && !epc_proposer_err(epc, st_slot(state)) && last_patt_raw.Data == old(attestation.Data) && eqseq(last_patt_raw.AggregationBits, old(attestation.AggregationBits)) && last_patt_raw.InclusionDelay == (st_slot(state) - old(attestation.Data.Slot)) % 18446744073709551616 && last_patt_raw.ProposerIndex == epc_proposer(epc, st_slot(state))
+//@   ensures c01_pending_list@C01: err == nil ==> (old(attestation.Data.Target.Epoch) == st_slot(state) / spec.SLOTS_PER_EPOCH ==> !st_curatts_err(state) && last_clist == st_curatts(state).ComplexListView) && (old(attestation.Data.Target.Epoch) != st_slot(state) / spec.SLOTS_PER_EPOCH ==> !st_prevatts_err(state) && last_clist == st_prevatts(state).ComplexListView)
+//@   ensures c01_failed@C01: err != nil ==> n_clist_append <= old(n_clist_append) + 1
 //@   panics off
 //@   opt weakcalls
 //@   opt inline=closures
@@ -374,7 +407,7 @@ package phase0
 //@   opt weakcalls
 //@   opt inline=closures
 //@   use reg_len_nonneg
-//@   assigns anything, ghost(n_set_bal), ghost(n_set_lhdr), ghost(set_lhdr), ghost(n_set_eth1), ghost(set_eth1), ghost(n_set_eb), ghost(n_aelig_write), ghost(n_set_act), ghost(last_set_act_v), ghost(last_set_act_val), ghost(n_inc_depidx), ghost(n_add_val), ghost(add_val_pub), ghost(add_val_creds), ghost(add_val_bal)
+//@   assigns anything, ghost(n_set_bal), ghost(n_set_lhdr), ghost(set_lhdr), ghost(n_set_eth1), ghost(set_eth1), ghost(n_set_eb), ghost(n_aelig_write), ghost(n_set_act), ghost(last_set_act_v), ghost(last_set_act_val), ghost(n_inc_depidx), ghost(n_add_val), ghost(add_val_pub), ghost(add_val_creds), ghost(add_val_bal), ghost(n_clist_append), ghost(last_clist)
 //@   ensures c13_effective_balance: err == nil && spec != nil && spec.EFFECTIVE_BALANCE_INCREMENT != 0 && r0 != nil && (forall a, b :: {reg_val(pst_vals(r0), a), reg_val(pst_vals(r0), b)} 0 <= a && a < b && b < reg_len(pst_vals(r0)) ==> reg_val(pst_vals(r0), a) != reg_val(pst_vals(r0), b)) ==> (forall i :: {reg_val(pst_vals(r0), i)} 0 <= i && i < reg_len(pst_vals(r0)) ==> v_eb_now(n_set_eb, reg_val(pst_vals(r0), i)) == min(bal_at(n_set_bal, pst_bals(r0), i) - bal_at(n_set_bal, pst_bals(r0), i) % spec.EFFECTIVE_BALANCE_INCREMENT, spec.MAX_EFFECTIVE_BALANCE))
 //@   ensures c13_activated: err == nil && spec != nil && spec.EFFECTIVE_BALANCE_INCREMENT != 0 && r0 != nil && (forall a, b :: {reg_val(pst_vals(r0), a), reg_val(pst_vals(r0), b)} 0 <= a && a < b && b < reg_len(pst_vals(r0)) ==> reg_val(pst_vals(r0), a) != reg_val(pst_vals(r0), b)) ==> (forall i :: {reg_val(pst_vals(r0), i)} 0 <= i && i < reg_len(pst_vals(r0)) && min(bal_at(n_set_bal, pst_bals(r0), i) - bal_at(n_set_bal, pst_bals(r0), i) % spec.EFFECTIVE_BALANCE_INCREMENT, spec.MAX_EFFECTIVE_BALANCE) == spec.MAX_EFFECTIVE_BALANCE ==> v_aelig(n_aelig_write, reg_val(pst_vals(r0), i)) == common.GENESIS_EPOCH)
 //@   loop 2
@@ -434,6 +467,7 @@ package phase0
 //@     invariant ctx_t >= old(ctx_t) && (old(ctx_seen) || !ctx_seen)
 //@     invariant ctx_t > old(ctx_t) ==> !ctx_cancelled(ctx, old(ctx_t))
 //@   assigns ghost(n_set_bal)
+//@   assigns ghost(n_patt_view), ghost(last_patt_raw), ghost(n_clist_append), ghost(last_clist)
 
 //@ func ComputeEpochAttesterData(ctx, spec, epc, flats, state) (r0, err)
 //@   property C18
@@ -799,6 +833,7 @@ package phase0
 //@     invariant ctx_t >= old(ctx_t) && (old(ctx_seen) || !ctx_seen)
 //@     invariant ctx_t > old(ctx_t) ==> !ctx_cancelled(ctx, old(ctx_t))
 //@   assigns ghost(n_set_bal)
+//@   assigns ghost(n_patt_view), ghost(last_patt_raw), ghost(n_clist_append), ghost(last_clist)
 //@   assigns ghost(n_vote_append), ghost(last_vote_append), ghost(n_set_eth1), ghost(set_eth1)
 //@   assigns ghost(n_set_mix), ghost(last_set_mix_epoch), ghost(last_set_mix)
 //@   assigns ghost(n_set_lhdr), ghost(set_lhdr)
